@@ -938,5 +938,11 @@ V('C13', 'mixin-reuses-evaluation-at-close-points', 'fire', 'C13.R6', 'the last 
   ('src/pyhf/optimize/mixins.py', '        minimizer = self._get_minimizer(\n            func,', "        if do_grad:\n            inner, last = func, {'pars': None, 'result': None}\n\n            def func(pars):\n                if last['pars'] is None or not np.allclose(pars, last['pars']):\n                    last['pars'] = np.array(pars, dtype=float)\n                    last['result'] = inner(pars)\n                return last['result']\n\n        minimizer = self._get_minimizer(\n            func,"))
 V('C13', 'mixin-reuses-evaluation-at-the-same-point', 'silent', '', 'the last (value, gradient) pair is returned again only for exactly the same point',
   ('src/pyhf/optimize/mixins.py', '        minimizer = self._get_minimizer(\n            func,', "        if do_grad:\n            inner, last = func, {'pars': None, 'result': None}\n\n            def func(pars):\n                if last['pars'] is None or not np.array_equal(pars, last['pars']):\n                    last['pars'] = np.array(pars, dtype=float)\n                    last['result'] = inner(pars)\n                return last['result']\n\n        minimizer = self._get_minimizer(\n            func,"))
+V('C11', 'model-nominal-rates-cached-per-object', 'fire', 'C11.R9', "Model.nominal_rates becomes a cached_property over the main model's refreshed tensor",
+  ('src/pyhf/pdf.py', 'import copy\nimport logging\n', 'import copy\nimport functools\nimport logging\n'),
+  ('src/pyhf/pdf.py', '    @property\n    def nominal_rates(self):\n        """Nominal value of bin rates of the main model."""', '    @functools.cached_property\n    def nominal_rates(self):\n        """Nominal value of bin rates of the main model."""'))
+V('C11', 'config-par-names-cached-per-object', 'silent', '', "the configuration's parameter names (python strings) become a cached_property",
+  ('src/pyhf/pdf.py', 'import copy\nimport logging\n', 'import copy\nimport functools\nimport logging\n'),
+  ('src/pyhf/pdf.py', '    @property\n    def par_names(self):', '    @functools.cached_property\n    def par_names(self):'))
 V("C13", "code4-exponent-mask-strict", "fire", "C13.R3", "code 4 takes exponent 1 (a constant) exactly at |alpha| = alpha0",
   ("src/pyhf/interpolators/code4.py", "            exponents >= self.__alpha0, exponents, self.ones", "            exponents > self.__alpha0, exponents, self.ones"))
